@@ -53,8 +53,28 @@ func loadProgram(repoDir string, patterns []string, overlay map[string][]byte, t
 }
 
 // harnessOverlay maps harness files under harnessRoot/<importpath-rel>/ into the repo tree.
-func harnessOverlay(repoDir, harnessRoot string) (map[string][]byte, []string, error) {
+// harnessRoots maps a harness file (relative path) to the root directory it came from.
+var harnessRoots = map[string]string{}
+
+func harnessOverlay(repoDir, harnessRootList string) (map[string][]byte, []string, error) {
 	ov := map[string][]byte{}
+	var files []string
+	var err error
+	for _, harnessRoot := range strings.Split(harnessRootList, ",") {
+		if harnessRoot == "" {
+			continue
+		}
+		var fs []string
+		fs, err = harnessOverlay1(repoDir, harnessRoot, ov)
+		if err != nil {
+			return ov, files, err
+		}
+		files = append(files, fs...)
+	}
+	return ov, files, err
+}
+
+func harnessOverlay1(repoDir, harnessRoot string, ov map[string][]byte) ([]string, error) {
 	var files []string
 	err := filepath.Walk(harnessRoot, func(p string, info os.FileInfo, err error) error {
 		if err != nil || info.IsDir() || !strings.HasSuffix(p, ".go") {
@@ -70,13 +90,14 @@ func harnessOverlay(repoDir, harnessRoot string) (map[string][]byte, []string, e
 		}
 		ov[filepath.Join(repoDir, rel)] = data
 		files = append(files, rel)
+		harnessRoots[rel] = harnessRoot
 		rt := filepath.Join(repoDir, filepath.Dir(rel), "zz_verif_rt.go")
 		if _, ok := ov[rt]; !ok {
 			ov[rt] = []byte(rtSource(packageClause(string(data))))
 		}
 		return nil
 	})
-	return ov, files, err
+	return files, err
 }
 
 type Directives struct {
@@ -169,6 +190,11 @@ func resetTerms() {
 }
 
 func main() {
+	if len(os.Args) > 2 && os.Args[1] == "discover" {
+		os.Setenv("PATH", "/opt/veriftools/go1.26.8/bin:"+os.Getenv("PATH"))
+		runDiscover(os.Args[2])
+		return
+	}
 	if len(os.Args) > 1 && os.Args[1] == "selftest" {
 		selftest()
 		return
